@@ -66,7 +66,22 @@ fn jstr(s: &str) -> String {
     o.push('"'); o
 }
 
-impl<L: Language + 'static, N: Analysis<L> + 'static> Run<L, N> where N::Data: std::fmt::Debug {
+trait LangExt: Language + Sized + 'static {
+    fn extract_with<N: Analysis<Self> + 'static>(r: &Run<Self, N>, cf: &str, h: &AppliedId) -> String where N::Data: std::fmt::Debug;
+}
+impl LangExt for Lf {
+    fn extract_with<N: Analysis<Self> + 'static>(r: &Run<Self, N>, cf: &str, h: &AppliedId) -> String where N::Data: std::fmt::Debug {
+        match cf { "AstSize" => r.extract_generic::<AstSize>(cf, h), "WeightedF" => r.extract_generic::<WeightedF>(cf, h), _ => panic!("natdiff: cost function") }
+    }
+}
+impl LangExt for Lb {
+    fn extract_with<N: Analysis<Self> + 'static>(r: &Run<Self, N>, cf: &str, h: &AppliedId) -> String where N::Data: std::fmt::Debug {
+        match cf { "AstSize" => r.extract_generic::<AstSize>(cf, h), "Weighted" => r.extract_generic::<Weighted>(cf, h), _ => panic!("natdiff: cost function") }
+    }
+}
+
+impl<L: LangExt, N: Analysis<L> + 'static> Run<L, N> where N::Data: std::fmt::Debug {
+    fn extract_with(&self, cf: &str, h: &AppliedId) -> String { L::extract_with(self, cf, h) }
     fn name_of(&self, s: Slot) -> String {
         let v = value_of_slot(s);
         for (i, n) in self.names.iter().enumerate() { if *n == v { return i.to_string(); } }
@@ -132,6 +147,26 @@ impl<L: Language + 'static, N: Analysis<L> + 'static> Run<L, N> where N::Data: s
         let c = self.eg.find_applied_id(h);
         let mut vals: Vec<String> = c.m.iter().map(|(_, v)| { let n = self.name_of(v); if n.starts_with('x') { "fresh".to_string() } else { n } }).collect(); vals.sort();
         format!("{{\"id\":{},\"vals\":[{}]}}", c.id.0, vals.iter().map(|x| jstr(x)).collect::<Vec<_>>().join(","))
+    }
+    fn show_rec(&self, re: &RecExpr<L>) -> String {
+        let syn = re.node.to_syntax();
+        let mut out = Vec::new(); let mut ci = 0;
+        for e in syn {
+            match e {
+                SyntaxElem::String(s) => out.push(jstr(&s)),
+                SyntaxElem::Slot(s) => { let n = self.name_of(s); out.push(jstr(if n.starts_with('x') { "fresh" } else { &n })); }
+                SyntaxElem::AppliedId(_) => { out.push(self.show_rec(&re.children[ci])); ci += 1; }
+            }
+        }
+        format!("[{}]", out.join(","))
+    }
+    fn extract_generic<CF: CostFunction<L, Cost = u64> + Default>(&self, name: &str, h: &AppliedId) -> String {
+        let ext = Extractor::<L, CF>::new(&self.eg, CF::default());
+        let re = ext.extract(h, &self.eg);
+        let cost = ext.get_best_cost::<N>(&self.eg.find_applied_id(h));
+        let lk = lookup_rec_expr(&re, &self.eg);
+        format!(",\"extract\":{{\"cf\":{},\"cost\":{},\"term\":{},\"lookup_some\":{},\"lookup_eq\":{}}}", jstr(name), cost, self.show_rec(&re), lk.is_some(),
+            match &lk { Some(a) => self.eg.eq(a, h).to_string(), None => "null".to_string() })
     }
     fn group_count(&self, id: Id) -> usize {
         // number of permutations pi of the class's slots with eq(identity invocation, permuted invocation): public API only
@@ -205,7 +240,7 @@ fn permute(v: &mut Vec<usize>, k: usize, f: &mut dyn FnMut(&[usize])) {
     for i in k..v.len() { v.swap(k, i); permute(v, k + 1, f); v.swap(k, i); }
 }
 
-fn run_history<L: Language + 'static, N: Analysis<L> + Default + 'static>(names: Vec<u32>, ops: &[String], with_data: bool, light: bool) -> (Vec<String>, Option<String>) where N::Data: std::fmt::Debug {
+fn run_history<L: LangExt, N: Analysis<L> + Default + 'static>(names: Vec<u32>, ops: &[String], with_data: bool, light: bool) -> (Vec<String>, Option<String>) where N::Data: std::fmt::Debug {
     let mut r: Run<L, N> = Run { eg: EGraph::new(N::default()), names, handles: Vec::new(), out: Vec::new(), with_data };
     let mut panic_msg = None;
     r.snapshot2("new", "", !light);
@@ -257,6 +292,11 @@ fn run_history<L: Language + 'static, N: Analysis<L> + Default + 'static>(names:
                             bound.iter().map(|x| jstr(x)).collect::<Vec<_>>().join(","), inst.is_some(), match &inst { Some(i) => r.describe(i), None => "null".to_string() }));
                     }
                     extra = format!(",\"ematch\":{{\"unchanged\":{},\"matches\":[{}]}}", before == after, items.join(","));
+                }
+                "extract" => {
+                    let mut p = 2; let t = parse_term(&toks, &mut p);
+                    let h = r.handle(&t).expect("extract of a term without handle");
+                    extra = r.extract_with(&toks[1], &h);
                 }
                 "rewrite" => {
                     // rewrite name | lhs | rhs ; name | lhs | rhs ...
